@@ -80,6 +80,12 @@ def one(case):
     rec.update(out2=limbs_out(e2.timestamp), dout2=dur_limbs(e2.duration), id2=e2.id if e2.id is not None else -1, data2=dname(e2.data))
     e3 = Event(**e)
     rec.update(out3=limbs_out(e3.timestamp), dout3=dur_limbs(e3.duration), id3=e3.id if e3.id is not None else -1, data3=dname(e3.data))
+    # the JSON form follows the event: change the data dict in place (no setter is involved) and serialise again
+    e.data["added-later"] = [1, {"k": "v"}]
+    rec["data_now"] = dname(e.data)
+    rec["dur_now"] = dur_limbs(e.duration)
+    e4 = Event(**json.loads(e.to_json_str()))
+    rec.update(out4=limbs_out(e4.timestamp), dout4=dur_limbs(e4.duration), id4=e4.id if e4.id is not None else -1, data4=dname(e4.data))
     return rec
 
 
